@@ -413,7 +413,17 @@ func (d *HeaderFooterDetector) findRepeatingPatterns(candidates []candidate, pag
 		minOccurrences = 2
 	}
 
-	for normalizedText, group := range groups {
+	// Visit the groups in the order of their normalized text: the order of a
+	// range over the map changes from run to run, and the regions are appended
+	// in the order the groups are visited.
+	normalizedTexts := make([]string, 0, len(groups))
+	for normalizedText := range groups {
+		normalizedTexts = append(normalizedTexts, normalizedText)
+	}
+	sort.Strings(normalizedTexts)
+
+	for _, normalizedText := range normalizedTexts {
+		group := groups[normalizedText]
 		// Skip very short text that isn't a page number
 		// Single letters/characters are likely fragments of larger text
 		if len(normalizedText) <= 2 && !isPageNumberPattern(normalizedText) {
@@ -466,8 +476,9 @@ func (d *HeaderFooterDetector) findRepeatingPatterns(candidates []candidate, pag
 		})
 	}
 
-	// Sort by confidence (highest first)
-	sort.Slice(regions, func(i, j int) bool {
+	// Sort by confidence (highest first); regions of equal confidence keep the
+	// order of their normalized text
+	sort.SliceStable(regions, func(i, j int) bool {
 		return regions[i].Confidence > regions[j].Confidence
 	})
 
